@@ -30,6 +30,8 @@ GRAPHS = {
     "chain4": [("a", [("b", "one_to_many")]), ("b", [("c", "many_to_one")]), ("c", [("d", "many_to_one")]), ("d", [])],
     # a model that EXTENDS another one and is registered unresolved (Python API / native YAML): whatever the graph makes of it, it must make the same of it under every schedule
     "ext": [("p", [("c", "many_to_one")]), ("c", [("r", "many_to_one")]), ("r", [("p", "one_to_many")]), ("e", [], "p")],
+    # a many_to_one that names a key of the related model OTHER than its primary key (orders.customer_code -> customers.code), declared from both ends
+    "altkey": [("a", [("b", "many_to_one", "code")]), ("b", [("a", "one_to_many"), ("c", "many_to_one", "code")]), ("c", [])],
 }
 
 
@@ -38,7 +40,7 @@ def mk_layer(gname):
     L = dbutil.fresh_layer()
     for name, rels, *ext in GRAPHS[gname]:
         L.add_model(Model(name=name, table=name, primary_key="id", **({"extends": ext[0]} if ext else {}),
-                          relationships=[Relationship(name=t, type=ty, foreign_key=(t + "_id") if ty == "many_to_one" else (name + "_id")) for t, ty in rels],
+                          relationships=[Relationship(name=r[0], type=r[1], foreign_key=(r[0] + "_id") if r[1] == "many_to_one" else (name + "_id"), **({"primary_key": r[2]} if len(r) > 2 else {})) for r in rels],
                           dimensions=[Dimension(name="x", type="categorical")], metrics=[Metric(name="n", agg="count")]))
     return L
 
@@ -135,7 +137,7 @@ def run(c):
             cases.append((gname, kind, eps, plan))
     import random
     rng_ext = random.Random(c.seed * 7 + 19)          # a stream of its own: the plans above stay what they were
-    for gname, kind, eps in [("ext", "path", [("e", "r"), ("e", "r")]), ("ext", "compile", [("e", "c"), ("p", "r")])]:
+    for gname, kind, eps in [("ext", "path", [("e", "r"), ("e", "r")]), ("ext", "compile", [("e", "c"), ("p", "r")]), ("altkey", "path", [("a", "c"), ("c", "a")]), ("altkey", "compile", [("a", "b"), ("a", "c")])]:
         for plan in plans(rng_ext, max(6, n_plans // 12), len(eps)):
             cases.append((gname, kind, eps, plan))
     # deterministic corpus: the slice pattern that exposes a clear-then-refill race (T2 enters on dirty, T1 builds and searches, T2 clears)
@@ -163,7 +165,7 @@ def run(c):
     # (into the lazy rebuild), T2 runs k2 lines (through its first lookup into a later one), T1 finishes, T2 finishes
     if c.broken() and not bad_cases:
         found = None
-        for gname, kind, eps in (("chain3", "compile", [("a", "c"), ("a", "c")]), ("chain4", "compile", [("a", "d"), ("b", "d")]), ("ext", "path", [("e", "r"), ("e", "r")]), ("ext", "compile", [("e", "c"), ("e", "r")])):
+        for gname, kind, eps in (("altkey", "path", [("a", "b"), ("a", "b")]), ("chain3", "compile", [("a", "c"), ("a", "c")]), ("chain4", "compile", [("a", "d"), ("b", "d")]), ("ext", "path", [("e", "r"), ("e", "r")]), ("ext", "compile", [("e", "c"), ("e", "r")])):
             for k1 in range(1, 14):
                 for k2 in range(1, 170, 2):
                     plan = [("T1", k1), ("T2", k2), ("T1", 10 ** 6), ("T2", 10 ** 6)]
@@ -190,7 +192,7 @@ def run(c):
                     if "_adjacency" in linecache.getline(src, ln):
                         pts.update((i, i + 1))
                 return sorted(x for x in pts if x > 0)
-            for gname, kind, eps in (("ext", "path", [("e", "r"), ("e", "r")]), ("ext", "compile", [("e", "c"), ("e", "r")]), ("chain3", "path", [("a", "c"), ("a", "c")]), ("chain4", "compile", [("a", "d"), ("b", "d")])):
+            for gname, kind, eps in (("altkey", "path", [("a", "b"), ("a", "b")]), ("ext", "path", [("e", "r"), ("e", "r")]), ("ext", "compile", [("e", "c"), ("e", "r")]), ("chain3", "path", [("a", "c"), ("a", "c")]), ("chain4", "compile", [("a", "d"), ("b", "d")])):
                 p1, p2 = points(gname, kind, *eps[0]), points(gname, kind, *eps[1])
                 for k1 in p1:
                     for k2 in p2:
